@@ -32,10 +32,10 @@ type signer struct {
 	// supplied is the caller's buffer that was handed to NewPrivateKey; the
 	// caller overwrites it at some later step (nil once that has happened)
 	supplied []byte
-	priv   *secec.PrivateKey
-	sch    *bitcoin.SchnorrPrivateKey
-	q      ref.Pt // model public key d*G
-	qBytes []byte
+	priv     *secec.PrivateKey
+	sch      *bitcoin.SchnorrPrivateKey
+	q        ref.Pt // model public key d*G
+	qBytes   []byte
 }
 
 // sigEvent is one successful ECDSA signing event.
